@@ -103,6 +103,37 @@ theorem mobStop_inside (k d qLow qHigh q qdot : K) (h1 : qLow ≤ q) (h2 : q ≤
   rw [mobStop_law_eq_doc, mobStop_pe_eq_doc]
   simp [docMobStopForce, docMobStopPE, not_lt.mpr h1, not_lt.mpr h2]
 
+/-! ### cable spring (tension law on the cable length) -/
+
+/-- **CableSpring**: the coded tension, power loss and energy (with the slack shortcut `x == 0`) are the documented
+`f = f_stretch + max(-f_stretch, f_stretch*c*xdot)`, `powerLoss = f_rate*xdot`, `pe = k x²/2`, `x = max(0, L-L0)` -/
+theorem cable_law_eq_doc (k c L0 L Ldot : K) :
+    (cableSpring k c L0 L Ldot).f = (docCableSpring k c L0 L Ldot).f
+    ∧ (cableSpring k c L0 L Ldot).powerLoss = (docCableSpring k c L0 L Ldot).powerLoss
+    ∧ (cableSpring k c L0 L Ldot).pe = (docCableSpring k c L0 L Ldot).pe := by
+  simp only [cableSpring, docCableSpring]
+  by_cases h : ¬ (kmax 0 (L - L0) < 0) ∧ ¬ (0 < kmax 0 (L - L0))
+  · have h0 : kmax 0 (L - L0) = 0 := le_antisymm (not_lt.mp h.2) (not_lt.mp h.1)
+    simp only [h0]
+    simp [kmax]
+  · simp only [if_neg h]
+    refine ⟨?_, ?_, ?_⟩ <;> first | trivial | rfl | ring
+
+/-- a slack cable (`L ≤ L0`) carries no tension, loses no power, stores no energy -/
+theorem cable_slack (k c L0 L Ldot : K) (h : L ≤ L0) :
+    (cableSpring k c L0 L Ldot).f = 0 ∧ (cableSpring k c L0 L Ldot).powerLoss = 0 ∧ (cableSpring k c L0 L Ldot).pe = 0 := by
+  have hx : kmax 0 (L - L0) = 0 := by
+    unfold kmax; rw [if_neg]; linarith
+  simp [cableSpring, hx]
+
+/-- the tension is never negative -/
+theorem cable_tension_nonneg (k c L0 L Ldot : K) : 0 ≤ (cableSpring k c L0 L Ldot).f := by
+  simp only [cableSpring]
+  split_ifs with h
+  · exact le_refl _
+  · unfold kmax
+    split_ifs <;> nlinarith
+
 /-! ### gravity -/
 
 omit [LinearOrder K] [IsStrictOrderedRing K] in
